@@ -118,7 +118,7 @@ func runC04(c *Ctx) {
 		{"max-length", []string{"bin<<=>(len(p0), 90)"}, []string{"bin<>>(len(p0), 90)"}},
 		{"separator-present", []string{"bin<!=>(" + hl + ", -1)"}, []string{"bin<==>(" + hl + ", -1)"}},
 		{"hrp-nonempty", []string{"bin<>=>(" + hl + ", 1)", "bin<!=>(" + hl + ", 0)"}, []string{"bin<<>(" + hl + ", 1)", "bin<==>(" + hl + ", 0)"}}, // with separator-present (hl != -1): hl != 0 ⟺ hl >= 1
-		{"six-symbols-after-separator", []string{"bin<<>(bin<->(" + hl + ", len(p0)), -5)"}, []string{"bin<>=>(bin<->(" + hl + ", len(p0)), -5)"}}, // canonical form of hrpLen+6 <= len(s)
+		{"six-symbols-after-separator", []string{"bin<<>(bin<->(" + hl + ", len(p0)), -5)"}, []string{"bin<>=>(bin<->(" + hl + ", len(p0)), -5)"}},  // canonical form of hrpLen+6 <= len(s)
 		{"single-case", []string{"bin<==>(call<*>(p0), nil)"}, []string{"bin<!=>(call<*>(p0), nil)"}},
 		{"charset", []string{"bin<==>(ext#1(call<*>(load(global<repo/pkg/bech32.charset>), slice(" + lower + ", bin<+>(" + hl + ", 1), none))), nil)"},
 			[]string{"bin<!=>(ext#1(call<*>(load(global<repo/pkg/bech32.charset>), slice(" + lower + ", bin<+>(" + hl + ", 1), none))), nil)"}},
